@@ -550,7 +550,7 @@ func emitVerify(o *hlib.Out, kind string, cfgs []cfgIn, h int64, t0, t1 *types.T
 	impl := safeCheck(t1, h)
 	changed := !proto.Equal(t0, t1)
 	o.Emit(kind, changed || impl == 1,
-		hlib.App("CVerify", coqDrivers(), hlib.Z(h), coqTx(t0), mutTerm(t0, t1), hxc(msg), hlib.N(uint64(dout)), hlib.N(uint64(impl))),
+		hlib.App("CVerify", coqDrivers(), coqAddrIDs(), hlib.Z(h), coqTx(t0), mutTerm(t0, t1), hxc(msg), hlib.N(uint64(dout)), hlib.N(uint64(impl))),
 		map[string]interface{}{"op": "verify", "cfgs": cfgs, "h": h, "t": toJ(t0), "t2": toJ(t1)},
 		map[string]interface{}{"checksign": impl, "driver_validate": dout})
 }
@@ -868,7 +868,7 @@ func main() {
 				applyCfg(c.EnableTypes, c.Heights)
 			}
 			emitVerify(o, "replay", in.Cfgs, in.H, fromJ(in.T), fromJ(in.T2))
-		case "wire", "resign", "from", "eth":
+		case "wire", "resign", "from", "fromany", "eth":
 			for _, c := range in.Cfgs {
 				applyCfg(c.EnableTypes, c.Heights)
 			}
@@ -879,6 +879,8 @@ func main() {
 				emitResign(o, "replay", in.Cfgs, in.H, in.Drv, unhex(in.Key), in.Ty, unhex(in.W))
 			case "from":
 				emitFrom(o, "replay", in.Cfgs, in.H, fromJ(in.T), in.Ty2)
+			case "fromany":
+				emitFromAny(o, "replay", in.Cfgs, in.H, fromJ(in.T))
 			case "eth":
 				emitEth(o, "replay", in.Cfgs, in.H, fromJ(in.T), fromJ(in.T2))
 			}
@@ -941,6 +943,7 @@ func main() {
 	// 4. extension streams under the default registration
 	wireStream(o, r, cfgs, nWire)
 	fromStream(o, r, cfgs, nFrom)
+	fromAnyStream(o, r, cfgs, nFrom)
 	actionStream(o, r, nAction)
 	ethStream(o, r, cfgs, nEth)
 	c1 := cfgIn{Heights: map[string]int64{"secp256k1": 0, "ed25519": 10, "sm2": 7, "secp256r1": 100, "secp256k1eth": 3, "none": 2}}
@@ -949,6 +952,7 @@ func main() {
 	verifyStream(o, r, cfgs, (perDriver+1)/2, opts.Thorough())
 	wireStream(o, r, cfgs, (nWire+1)/2)
 	fromStream(o, r, cfgs, (nFrom+1)/2)
+	fromAnyStream(o, r, cfgs, (nFrom+1)/2)
 	ethStream(o, r, cfgs, (nEth+2)/3)
 	c2 := cfgIn{EnableTypes: []string{"secp256k1", "sm2", "secp256k1eth", "none"}, Heights: map[string]int64{"secp256k1": 5, "sm2": -1, "none": 4, "ed25519": 2}}
 	applyCfg(c2.EnableTypes, c2.Heights)
